@@ -243,8 +243,17 @@ class CrashMachineryError(Exception):
     pass
 
 
-def file_names(fmt):
+def file_names(fmt, shifted=False):
+    """(output file, backup file).  shifted: the directory already holds the results `r.<fmt>` of an earlier,
+    different simulation, so that fix_output_filenames moves this simulation to `r_1.<fmt>`."""
+    if shifted:
+        return 'r_1.' + fmt, 'r_1.backup.' + fmt
     return 'r.' + fmt, 'r.backup.' + fmt
+
+
+def foreign_names(fmt, shifted=False):
+    """files in the directory that belong to somebody else (the simulation must not modify them)"""
+    return ['r.' + fmt, 'r.backup.' + fmt] if shifted else []
 
 
 def run_child(cwd, job, kill=None, timeout=300):
@@ -252,15 +261,15 @@ def run_child(cwd, job, kill=None, timeout=300):
     KILL) is delivered on entry of the n-th traced call of that kind; with KILL the call does not take effect.
     Only calls on the two result files and the marker file are traced (and counted).
     Returns (strace exit code, raw strace log text, stdout of the child)."""
-    out, bak = file_names(job['fmt'])
-    job = dict(job, dir='.', marker='marker', out=out)
+    out, bak = file_names(job['fmt'], job.get('shifted'))
+    job = dict(job, dir='.', marker='marker', out='r.' + job['fmt'])     # the option output_filename never changes
     log = os.path.join(cwd, 'strace.%s.log' % job['tag'])
     if not os.path.exists(os.path.join(cwd, 'marker')):
         open(os.path.join(cwd, 'marker'), 'w').close()
     cmd = ['strace', '-f', '-o', log, '-s', '48', '-e', 'trace=' + TRACE_SET]
     if kill is not None:
         cmd += ['-e', 'inject=%s:signal=%s:when=%d' % (kill[0], kill[2] if len(kill) > 2 else 'KILL', kill[1])]
-    for name in (out, bak, 'marker'):
+    for name in [out, bak, 'marker'] + foreign_names(job['fmt'], job.get('shifted')):
         cmd += ['-P', name, '-P', os.path.join(os.path.abspath(cwd), name)]
     cmd += [PYTHON, '-W', 'ignore', '-m', 'harness.crash', json.dumps(job)]
     env = dict(os.environ)
@@ -287,12 +296,14 @@ _RE_UNFIN = re.compile(r'^(\d+)\s+(\w+)\((.*) <unfinished \.\.\.>$')
 _RE_RESUMED = re.compile(r'^(\d+)\s+<\.\.\. (\w+) resumed>(.*)\)\s+= (-?\d+|\?)(.*)$')
 
 
-def parse_strace(txt, fmt):
+def parse_strace(txt, fmt, shifted=False):
     """-> list of raw entries dict(kind, occ, ev) in execution order; `occ` counts the traced calls of that
     kind (what strace's when=N counts), `ev` is the normalised event or None for calls without effect
     on the abstract state (fstat on an fd, failed open without O_CREAT, flock, read-only opens ...)."""
-    out, bak = file_names(fmt)
+    out, bak = file_names(fmt, shifted)
     names = {out: 'out', bak: 'bak', 'marker': 'marker'}
+    for name in foreign_names(fmt, shifted):
+        names[name] = 'other'      # reads are ignored, every modification becomes an event (which no spec action matches)
     fds = {}     # (pid-independent) fd -> (file, mode)
     occ = {}
     raw = []
@@ -345,7 +356,7 @@ def parse_strace(txt, fmt):
             if ok:
                 wr = ('O_WRONLY' in args or 'O_RDWR' in args or kind == 'creat')
                 fds[int(ret)] = (f, 'w' if wr else 'r')
-                if f in ('out', 'bak') and wr:
+                if f in ('out', 'bak', 'other') and wr:
                     ent['ev'] = dict(op='open', f=f, trunc=('O_TRUNC' in args or kind == 'creat'))
         elif kind in ('write', 'pwrite64', 'pwritev', 'writev', 'ftruncate', 'fallocate'):
             fd = int(args.split(',')[0])
@@ -354,12 +365,12 @@ def parse_strace(txt, fmt):
                 mm = re.search(r'"([^"]*)"', args)
                 text = mm.group(1).replace('\\n', '').strip()
                 ent['ev'] = dict(op='marker', text=text)
-            elif f in ('out', 'bak'):
+            elif f in ('out', 'bak', 'other'):
                 ent['ev'] = dict(op='write', f=f, n=1)
         elif kind == 'close':
             fd = int(args.split(',')[0].strip() or -1)
             f, mode = fds.pop(fd, (None, None))
-            if f in ('out', 'bak') and mode == 'w':
+            if f in ('out', 'bak', 'other') and mode == 'w':
                 ent['ev'] = dict(op='close', f=f)
         elif kind in ('rename', 'renameat', 'renameat2'):
             fs = [names.get(os.path.basename(x)) for x in re.findall(r'"([^"]*)"', args)]
@@ -367,7 +378,7 @@ def parse_strace(txt, fmt):
                 ent['ev'] = dict(op='rename', f=fs[0], t=fs[1])
         elif kind in ('unlink', 'unlinkat'):
             f = fname(args)
-            if ok and f in ('out', 'bak'):
+            if ok and f in ('out', 'bak', 'other'):
                 ent['ev'] = dict(op='unlink', f=f)
         # fsync / fdatasync: no abstract effect (durability across power loss is not modelled)
     return raw
@@ -460,12 +471,12 @@ def project_file(path):
 # --------------------------------------------------------------------------------------------
 # one incarnation of the process = one task of the pool
 # --------------------------------------------------------------------------------------------
-def _copy_state(src, dst, fmt):
+def _copy_state(src, dst, fmt, shifted=False):
     import shutil
     os.makedirs(dst, exist_ok=True)
     if src is None:
         return
-    for name in file_names(fmt):
+    for name in list(file_names(fmt, shifted)) + foreign_names(fmt, shifted):
         p = os.path.join(src, name)
         if os.path.exists(p):
             shutil.copy2(p, os.path.join(dst, name))
@@ -480,9 +491,10 @@ def run_incarnation(task):
     import time
     t0 = time.time()
     fmt = task['fmt']
-    _copy_state(task.get('base'), task['dir'], fmt)
-    out, bak = file_names(fmt)
-    job = dict(workload=task['workload'], nsteps=task['nsteps'], fmt=fmt, tag=task['tag'],
+    shifted = bool(task.get('shifted'))
+    _copy_state(task.get('base'), task['dir'], fmt, shifted)
+    out, bak = file_names(fmt, shifted)
+    job = dict(workload=task['workload'], nsteps=task['nsteps'], fmt=fmt, tag=task['tag'], shifted=shifted,
                summary='summary.%s.json' % task['tag'])
     if task['mode'] == 'resume':
         job['mode'] = 'resume'
@@ -496,7 +508,7 @@ def run_incarnation(task):
             job['extra']['overwrite_output'] = True
     kill = tuple(task['kill']) if task.get('kill') else None
     code, txt, stdout = run_child(task['dir'], job, kill=kill)
-    raw = parse_strace(txt, fmt)
+    raw = parse_strace(txt, fmt, shifted)
     killed = any(e.get('killed') for e in raw) or code == 137
     res = dict(killed=killed, raw=[dict(kind=e['kind'], occ=e['occ'], ev=e['ev']) for e in raw],
                exit=code, tag=task['tag'], dir=task['dir'])
@@ -630,24 +642,40 @@ def execute_plan(plan):
     trace = []
     incs = []
     classes = []
+    nruns = 0
     mode, rf = 'run', None
     ref_raw = plan['ref0']
+    shifted = bool(plan.get('shifted'))
+    foreign = {}
+    if shifted:
+        # an earlier, different (shorter) simulation finished in this directory with the same output_filename
+        pre = run_incarnation(dict(workload=plan['workload'], fmt=plan['fmt'], nsteps=1, mode='run', resume_file=None,
+                                   base=None, dir=os.path.join(root, 'pre'), tag='pre'))
+        nruns += 1
+        if pre['killed'] or pre.get('summary', {}).get('status') != 'ok':
+            raise CrashMachineryError('prelude simulation failed')
+        base = pre['dir']
+        foreign = _digests(base, foreign_names(plan['fmt'], True))
     n = 0
     final = None
-    nruns = 0
     steps = list(plan['incs'])
     while True:
         spec_inc = steps[n] if n < len(steps) else None
         common = dict(workload=plan['workload'], fmt=plan['fmt'], nsteps=plan['nsteps'], mode=mode, resume_file=rf,
-                      base=base, extra=plan.get('extra'))
+                      base=base, extra=plan.get('extra'), shifted=shifted)
         kill_idx = None
-        if spec_inc is not None and (spec_inc.get('ops') is not None or spec_inc.get('raw_idx') is not None):
+        if spec_inc is not None and (spec_inc.get('ops') is not None or spec_inc.get('raw_idx') is not None
+                                     or spec_inc.get('after_save') is not None):
             if ref_raw is None:
                 # reference execution of this incarnation: run it to the end on a copy
                 r = run_incarnation(dict(common, dir=os.path.join(root, 'ref%d' % n), tag='ref%d' % n))
                 nruns += 1
                 ref_raw = r['raw']
-            if spec_inc.get('raw_idx') is not None:
+            if spec_inc.get('after_save') is not None:
+                done = [i + 1 for i, e in enumerate(ref_raw) if e['ev'] and e['ev'].get('op') == 'rename'
+                        and e['ev'].get('t') == 'out']
+                kill_idx = done[spec_inc['after_save'] - 1] if len(done) >= spec_inc['after_save'] else None
+            elif spec_inc.get('raw_idx') is not None:
                 kill_idx = spec_inc['raw_idx'] if spec_inc['raw_idx'] < len(ref_raw) else None
             else:
                 kill_idx = align(spec_inc['ops'], ref_raw, plan['maxwrites'], rnd)
@@ -709,10 +737,26 @@ def execute_plan(plan):
             mode, rf = 'restart', None
         if n > 6:
             raise CrashMachineryError('plan does not terminate: %r' % (plan['id'],))
+    foreign_changed = []
+    if shifted and incs:
+        last_dir = os.path.join(root, 'inc%d' % incs[-1]['n'])
+        now = _digests(last_dir, foreign_names(plan['fmt'], True))
+        foreign_changed = sorted(k for k in set(foreign) | set(now) if foreign.get(k) != now.get(k))
     if not plan.get('keep'):
         shutil.rmtree(root, ignore_errors=True)
     return dict(id=plan['id'], trace=trace, incs=incs, classes=classes, final=final, nruns=nruns,
-                wall=time.time() - t0)
+                foreign_changed=foreign_changed, wall=time.time() - t0)
+
+
+def _digests(d, names):
+    import hashlib
+    out = {}
+    for name in names:
+        p = os.path.join(d, name)
+        if os.path.exists(p):
+            with open(p, 'rb') as f:
+                out[name] = hashlib.sha256(f.read()).hexdigest()
+    return out
 
 
 def _proj_for_tlc(p):
